@@ -426,6 +426,13 @@ func (d *Datastore) TransactionSet(ctx context.Context, transactionId string, tr
 		}
 	}
 
+	// a request that is refused as a whole (the same intent twice) is refused before anything of it is applied
+	err = transaction.AddTransactionIntents(transactionIntents, types.TransactionIntentNew)
+	if err != nil {
+		log.Errorf("error adding intents to transaction: %v", err)
+		return nil, err
+	}
+
 	// add the replaceIntent to the transaction
 	transaction.SetReplace(replaceIntent)
 
@@ -438,12 +445,6 @@ func (d *Datastore) TransactionSet(ctx context.Context, transactionId string, tr
 		}
 		// TODO: do something with these warnings
 		_ = replaceWarn
-	}
-
-	err = transaction.AddTransactionIntents(transactionIntents, types.TransactionIntentNew)
-	if err != nil {
-		log.Errorf("error adding intents to transaction: %v", err)
-		return nil, err
 	}
 
 	response, err := d.lowlevelTransactionSet(ctx, transaction, dryRun)
